@@ -365,6 +365,9 @@ def r7_positioned_reads(ctx):
 
 
 def run(ctx):
+    # E-drop (rules/dropped.py): no bool result of a function of these modules is thrown away by a caller anywhere in the workspace
+    from . import dropped
+    dropped.rule_dropped(ctx, "C16.R8", [k for k in ["cascette_formats", "cascette_client_storage", "cascette_cache", "cascette_protocol", "cascette_ribbit"] if k in (CRATES or [])] or CRATES, r"cascette-formats/src/zbsdiff/", floor=0)
     r7_positioned_reads(ctx)
     r1_relative_seek(ctx)
     r2_length_check(ctx)
@@ -375,4 +378,4 @@ def run(ctx):
 
 
 from .selftest import for_families as _ff  # noqa: E402
-selftest = _ff(['slice', 'loop', 'readloop'])
+selftest = _ff(['slice', 'loop', 'readloop', 'drop'])
